@@ -273,14 +273,14 @@ FOLLOWING_PROBES = {'stat', 'stat64', 'access', 'open', 'fopen', 'open_noatime',
 NOFOLLOW_PROBES = {'lstat', 'lstat64', 'readlink'}
 
 
-def nofollow_probe_rule(P, rep, rid, fnames, why):
+def nofollow_probe_rule(P, rep, rid, fnames, why, forbidden=None):
     """the named functions decide whether a directory entry exists / what it is; they must look at the entry itself (lstat), not at
     what a symbolic link points to: with stat() a recorded link whose target is gone is "missing", and a link is its target"""
     rep.rule(rid, 'entries are examined without following symbolic links (%s): the probe is lstat, no stat/access/open on the path' % why, len(fnames))
     for fn in fnames:
         f = P.fn(fn)
         rep.analysed(f)
-        fol = [c for c in f.calls(FOLLOWING_PROBES)]
+        fol = [c for c in f.calls(forbidden or FOLLOWING_PROBES)]
         nof = [c for c in f.calls(NOFOLLOW_PROBES)]
         if not fol and not nof:
             raise AnalysisBroken('%s: no file-system probe recognised' % fn)
